@@ -44,17 +44,21 @@ add('C16', 'PlusCal/TLA+ model AssemblyThreads of the threaded kernel: TLC explo
     'judged by TLC against the property-level clauses (bit-identical to serial assembly).',
     'DESIGN.md section 5 C16')
 
-add('C12', 'TLA+ spec Refinement/GeomRefine (relational post-conditions in exact integer geometry, numbering-free): TLC '
-    'trace validation of every uniform refinement step recorded from the real Mesh classes, incl. histories '
-    '(refine after restrict / refine / adapt) and second-order classes',
+add('C12', 'TLA+ spec Refinement/GeomRefine (relational post-conditions, exact integer geometry, numbering-free) + '
+    'UniformOps (transcriptions of segment/triangle/quadrilateral refinement incl. facet maps and generic sub-domain '
+    'propagation): TLC model checking Impl => clauses over the lattice universes with every facet and cell tagged '
+    '(pre-repair propagation refuted) + TLC trace validation of every uniform refinement step recorded from the real '
+    'Mesh classes, incl. histories and second-order classes; model-vs-code drift measured (0)',
     'TLC decides on every recorded step: valid mesh, no degenerate/twisted cells, conforming (facets in <= 2 cells, no '
     'hanging nodes), count 2^(d k), every child inside a parent, same total measure, boundary preserved, old vertices '
     'kept, sub-domains and boundaries designate the same point sets or are dropped with a logged warning. '
     'Bounded: tagged universe meshes of all cell types, k <= 2.',
     'DESIGN.md section 5 C12')
-add('C13', 'TLA+ spec Refinement/GeomRefine: TLC trace validation of adaptive refinement steps of the real code for '
-    'EVERY marked subset of small triangle / segment / tetrahedral meshes, sequences of adaptive and uniform steps, '
-    'second-order classes',
+add('C13', 'PlusCal/TLA+ model RGB of red-green-blue refinement (longest-edge sort, closure loop one step per iteration, '
+    'split templates, sub-domain map): TLC checks clauses, least fix-point and termination (liveness) for EVERY marked '
+    'subset of the lattice meshes, two named deviations refuted + TLC trace validation of adaptive refinement steps of '
+    'the real code for every marked subset of small triangle / segment / tetrahedral meshes, sequences, second-order '
+    'classes; model-vs-code drift measured (0)',
     'TLC decides on every recorded step: valid, non-degenerate, conforming, domain preserved (children inside parents, '
     'same measure, boundary preserved), marked cells subdivided, old vertices kept, sub-domains cover the same regions, '
     'termination within the alarm. Exhaustive over marked subsets for the 8-triangle lattice meshes, segments and one '
